@@ -191,8 +191,8 @@ func init() {
 			e := d.ArContent[n]
 			listing := "-"
 			if e.IsTarfile() {
-				// the loader has read from this member's reader: a caller that wants the member again rewinds it first
-				e.Data.Seek(0, io.SeekStart)
+				// (no rewinding: since repair 649bfd8 every Tarfile() call reads its own view of the member from the first byte,
+				// whatever the loader or an earlier call has consumed)
 				tr, closer, err := e.Tarfile()
 				if err != nil {
 					listing = "open-error"
